@@ -84,9 +84,15 @@ def call_list(tier, typed=False, spec=None):
         return callmc.calls(values=(1, 2), maxpos=3, kwnames=tuple(spec[5]) + ('k', 'self'), maxkw=2)
     if typed:
         return callmc.calls(values=(1, 1.0, True), maxpos=2, kwnames=('a', 'b', 'k'), maxkw=1)
+    # variadic signatures: positional *strings that spell a keyword name* next to the real keyword
+    # (f(1, 'k', 2) and f(1, k=2) bind differently and must not share a key when the scheme keeps args and kwds apart)
+    extra = []
+    if spec is not None and spec[2]:
+        extra = [c for c in callmc.calls(values=(1, 'k', 'z'), maxpos=3, kwnames=('k', 'z'), maxkw=1, kwvalues=(1,))
+                 if any(isinstance(x, str) for x in c[0])]
     if tier == 'quick':
-        return callmc.calls(values=(1, 2), maxpos=3, kwnames=('a', 'b', 'k', 'z'), maxkw=2)
-    return callmc.calls(values=(1, 2), maxpos=4, kwnames=('a', 'b', 'c', 'k', 'm', 'z'), maxkw=2) + \
+        return callmc.calls(values=(1, 2), maxpos=3, kwnames=('a', 'b', 'k', 'z'), maxkw=2) + extra
+    return extra + callmc.calls(values=(1, 2), maxpos=4, kwnames=('a', 'b', 'c', 'k', 'm', 'z'), maxkw=2) + \
         [c for c in callmc.calls(values=(1,), maxpos=1, kwnames=('a', 'b', 'k', 'z'), maxkw=3, kwvalues=(1, 2))
          if len(c[1]) == 3]
 
@@ -106,9 +112,14 @@ def _w_c0910(task):
         if prop == 'C10' and not preserving:
             continue
         forms = build_forms(spec, lambda c, ign: klepto.inf_cache(keymap=mk(), ignore=('self',) if ign else None)(c))
+        # C10 claims discrimination for non-flat keymaps, and for flat ones only with a sentinel or without variadic
+        # positionals: a flat key without sentinel cannot tell f('k', 1) from f(k=1), and nobody says it can
+        ambiguous_by_design = spec[2] and 'flat=False' not in kmname and 'sentinel' not in kmname
         for form, W, prefix, ref, counter in forms:
             groups = collections.OrderedDict()     # binding -> list of (call, key)
             for (a, kw) in calls:
+                if ambiguous_by_design and any(isinstance(x, str) for x in a):
+                    continue
                 args = prefix + a
                 b = callmc.bind_by_call(ref, a if form in ('boundmethod',) or form.startswith('partial') else args, kw)
                 if b is None:
